@@ -437,7 +437,7 @@ Definition regexp_events_ok (p : pat) (pieces : list cpiece) (evs : list event) 
         end) (seq 0 (length pieces))
   end.
 
-(* 1 shape, 2 atoms_ok, 4 hits, 8 literal events, 16 regexp events, 32 bookkeeping *)
+(* 1 shape, 2 atoms_ok, 4 hits, 8 literal events, 16 regexp events, 32 bookkeeping, 64 event order *)
 Definition chain_check_bits (p : pat) (pieces : list cpiece) (atoms : list atom) (kernel : nat) (hits : list hit)
                             (evs : list event) (d : bytes) (rep : list triple) : N :=
   (if chain_shape_ok p pieces then 0 else 1) +
@@ -446,7 +446,8 @@ Definition chain_check_bits (p : pat) (pieces : list cpiece) (atoms : list atom)
   (if list_eqb event_eqb (filter (fun ev => negb (is_regexp_piece pieces (fst (fst ev)))) evs)
                          (hit_events pieces atoms hits d) then 0 else 8) +
   (if regexp_events_ok p pieces evs d then 0 else 16) +
-  (if list_eqb triple_eqb rep (map nat_triple (run_chain pieces evs)) then 0 else 32).
+  (if list_eqb triple_eqb rep (map nat_triple (run_chain pieces evs)) then 0 else 32) +
+  (if events_ordered_b evs then 0 else 64).
 
 Definition chain_check (p : pat) (pieces : list cpiece) (atoms : list atom) (kernel : nat) (hits : list hit)
                        (evs : list event) (d : bytes) (rep : list triple) : bool :=
@@ -535,7 +536,7 @@ Definition diagnose (c : case) : N :=
       (if ascending_b (map t_start rep) then 0 else 4) +
       (if limit_reached mm rep || complete_b p d rs rep then 0 else 8) +
       (if count_ok mm rep then 0 else 16) +
-      (if sound_b p d rs rep then 0 else if wide_byte_gap_explains p d rep then 65536 else 0)
+      (if sound_b p d rs rep then 0 else if wide_byte_gap_explains p d rep then 131072 else 0)
   | MLPanicCase _ => 33
   (* stream (d): 64 the dumped sub-patterns are not the ones compile_text / the hex model
      expects, 128 atoms_ok is false on the real atoms, 256 the pipeline model run on the
@@ -556,6 +557,6 @@ Definition diagnose (c : case) : N :=
       (if complete_b p d rs rep then 0 else 8) +
       (if chain_check p pieces atoms k hits evs d rep then 0 else 256) +
       1024 * chain_check_bits p pieces atoms k hits evs d rep +
-      (if sound_b p d rs rep then 0 else if wide_byte_gap_explains p d rep then 65536 else 0)
+      (if sound_b p d rs rep then 0 else if wide_byte_gap_explains p d rep then 131072 else 0)
   | _ => 32
   end.
